@@ -4,6 +4,7 @@ from scipy.sparse.linalg import LinearOperator, eigsh, lsmr, aslinearoperator
 from scipy import optimize, sparse
 from functools import partial
 from collections import defaultdict
+from mbi import _verif_trace as _vt
 
 class FactoredInference:
     def __init__(self, domain, backend = 'numpy', structural_zeros = {}, metric='L2', log=False, iters=1000, warm_start=False, elim_order=None):
@@ -140,9 +141,14 @@ class FactoredInference:
             x = (1-a)*x + a*z
             if callback is not None:
                 callback(x)
+            if _vt.ON and _vt.sink is not None:
+                _vt.emit('ig.iter', k=k, a=float(a), c=float(c), l=float(l))
 
         model.marginals = x
         model.potentials = model.mle(x) 
+        if _vt.ON and _vt.sink is not None:
+            _vt.emit('est.return', solver='IG', path='avg', model_id=id(model),
+                     pot_id=id(model.potentials), marg_id=id(model.marginals))
 
     def dual_averaging(self, measurements, total = None, lipschitz = None, callback=None):
         """ Use the regularized dual averaging algorithm to estimate the GraphicalModel
@@ -167,6 +173,9 @@ class FactoredInference:
         domain, cliques, total = model.domain, model.cliques, model.total
         L = self._lipschitz(measurements) if lipschitz is None else lipschitz
         print('Lipchitz constant:', L)
+        if _vt.ON and _vt.sink is not None and L == 0:
+            _vt.emit('est.return', solver='RDA', path='lip_zero', model_id=id(model),
+                     pot_id=id(model.potentials), marg_id=None)
         if L == 0: return
  
         theta = model.potentials
@@ -185,9 +194,14 @@ class FactoredInference:
            
             if callback is not None:
                 callback(w)
+            if _vt.ON and _vt.sink is not None:
+                _vt.emit('rda.iter', t=t, c=float(c), L=float(L), beta=float(beta))
 
         model.marginals = w
         model.potentials = model.mle(w) 
+        if _vt.ON and _vt.sink is not None:
+            _vt.emit('est.return', solver='RDA', path='avg', model_id=id(model),
+                     pot_id=id(model.potentials), marg_id=id(model.marginals))
 
     def mirror_descent(self, measurements, total = None, stepsize = None, callback=None):
         """ Use the mirror descent algorithm to estimate the GraphicalModel
@@ -213,6 +227,12 @@ class FactoredInference:
         cliques, theta = model.cliques, model.potentials
         mu = model.belief_propagation(theta)
         ans = self._marginal_loss(mu)
+        if _vt.ON and _vt.sink is not None:
+            _vt.emit('md.start', loss=float(ans[0]), total=float(model.total), iters=self.iters,
+                     linesearch=stepsize is None)
+            if ans[0] == 0:
+                _vt.emit('est.return', solver='MD', path='zero_loss', model_id=id(model),
+                         pot_id=id(model.potentials), marg_id=None)
         if ans[0] == 0:
             return ans[0]
 
@@ -235,12 +255,18 @@ class FactoredInference:
                 theta = omega - alpha*dL
                 mu = model.belief_propagation(theta)
                 ans = self._marginal_loss(mu)
+                if _vt.ON and _vt.sink is not None:
+                    _vt.emit('md.try', t=t, i=i, alpha=float(alpha), curr=float(curr_loss), new=float(ans[0]),
+                             rhs=float(0.5*alpha*dL.dot(nu-mu)), nols=bool(nols), theta_id=id(theta), mu_id=id(mu))
                 if nols or curr_loss - ans[0] >= 0.5*alpha*dL.dot(nu-mu):
                     break
                 alpha *= 0.5
 
         model.potentials = theta
         model.marginals = mu
+        if _vt.ON and _vt.sink is not None:
+            _vt.emit('est.return', solver='MD', path='normal', model_id=id(model),
+                     pot_id=id(model.potentials), marg_id=id(model.marginals), loss=float(ans[0]))
 
         return ans[0]
 
@@ -341,6 +367,9 @@ class FactoredInference:
                 if set(proj) <= set(cl):
                     self.groups[cl].append(m)
                     break
+        if _vt.ON and _vt.sink is not None:
+            _vt.emit('est.setup', model_id=id(model), pot_id=id(model.potentials), total=float(model.total),
+                     groups_id=id(self.groups), warm=bool(self.warm_start))
 
     def _lipschitz(self, measurements):
         """ compute lipschitz constant for L2 loss 
